@@ -41,4 +41,23 @@ CLAIMED["C15"] = {
     "note": BASE_NOTE + "Data equality is abstracted to equality of codes (NaN data and signed zeros are outside, DESIGN 8.2).",
     "technique": "Coq proof (equivalence-relation facts incl. reflected __eq__ dispatch) + differential correspondence",
 }
+CLAIMED["C02"] = {
+    "text": "Theorems (closed): for every field, value that fits and target line (any length/content, str or bytes): the result has "
+            "length max(len, span end), the span holds the rendering, every other position holds what the blank-padded input held; "
+            "renderings are never narrower than the field; integers/floats right-justified, literals/dates left-justified, missing "
+            "values blank; a written line is max-stop wide (+ newline in text) with blank gaps, for any field order. Tied to Field.write "
+            "and Line.write by a complete enumeration of kind x size x start x target length x contents x fitting values (str and "
+            "bytes), random multi-field layouts and the default-constructed fields.",
+    "note": BASE_NOTE + "'fits' is decided by the model; renderings of floats/dates rely on the L0 model of CPython formatting (primitive-level correspondence).",
+    "technique": "Coq proof (list splice/frame lemmas, fold invariant over field list) + differential correspondence (exhaustive small scope)",
+}
+CLAIMED["C03"] = {
+    "text": "Theorems (closed): field_read = reference interpretation of the span (str and bytes), a total function; locality (equal "
+            "spans read equal, anything outside the span is irrelevant); short lines read as the truncated span; line reads return the "
+            "per-field readings whatever the slots held. The weight is on the tie: all strings over a 19-symbol adversarial alphabet up "
+            "to length 3/4 through int/float/strip/strptime and through fields, random grammars, all 2-byte patterns, invalid UTF-8, "
+            "read sequences through one field object.",
+    "note": BASE_NOTE + "The reference interpretation itself is the L0 model of int()/float()/strptime/UTF-8 (validated against CPython at primitive level).",
+    "technique": "Coq proof (definitional refinement + locality lemmas) + differential correspondence (exhaustive adversarial alphabet)",
+}
 NOT_APPLICABLE = {}
